@@ -59,6 +59,8 @@ PROPS = {
     },
     "C08": {
         "level": "proof",
+        "verus_policy": "safety",
+        "own_clauses": ["js_path_process.post.ok", "validate_range.post.ok", "validate_range.post.err", "js_path.post.parse_err"],
         "explanation": "Scoped to the arithmetic core and the Ok/Err mapping. Verus proves, for all lengths < 2^62 and all I-JSON integers: no overflow, "
                        "no out-of-bounds access, termination of both slice loops (decreases), and that js_path_process returns Ok for every well-formed "
                        "query (the state never becomes a Value at top level). validate_range is proved to accept exactly the I-JSON range. Kani probes "
@@ -83,6 +85,7 @@ PROPS = {
     },
     "C15": {
         "level": "other",
+        "verus_policy": "undecided",
         "explanation": "Mixed. Parametricity: every Verus proof is over an arbitrary T: Queryable and phrased only through the trait's spec accessors, so for the "
                        "proved units the result is a function of the trait view for ALL implementations. The comparison kernel is additionally proved by Kani "
                        "at a second faithful view (integers visible through as_i64 only). BOUNDED: end-to-end agreement of a non-serde_json instance with serde_json::Value.",
